@@ -149,7 +149,14 @@ TrOut ==
             <<(Cardinality(vs) < Ev.max_validators) => \A u \in {n.ent : n \in el} : u \in elEnts,
               "the validator set is not full although an eligible entity was left out">>,
             <<\A v, w \in vs : stake(v.ent) >= stake(w.ent) => v.power >= w.power, "voting power is not non-decreasing in stake">>,
-            <<\A v \in vs : v.power > 0, "elected validator without voting power">>
+            <<\A v \in vs : v.power > 0, "elected validator without voting power">>,
+            \* nodes frozen by the applications that were told about the coming election (liveness of the ending epoch) are frozen
+            \* before the candidates are read: a node that is frozen once the election is over was not elected in it
+            <<HasF(Ev, "frozen_after") =>
+                 /\ \A v \in vs : \A n \in nodeOf(v) : n.id \notin SeqSet(Ev.frozen_after)
+                 /\ \A c \in {x \in CommitteesOf(Ev) : x.valid_for = Ev.epoch} :
+                        \A i \in DOMAIN c.members : c.members[i].id \notin SeqSet(Ev.frozen_after),
+              "a node that is frozen once the election is over was elected in it (validator or committee member)">>
           >> \o CommitteeClauses(Ev, I, elEnts))
        /\ pending' = {<<v.cons, v.power>> : v \in vs} /\ havePending' = TRUE
     /\ nElections' = nElections + 1
